@@ -550,7 +550,9 @@ def run(ctx):
     # value-based: what the loader hands to the constructor (per concrete history class)
     for HC in [H] + [c for c in repo.subclasses(repo.cls("aspire.history:History"), strict=True) if c is not H]:
         ldc = HC.resolve("load")
-        evh = Evaluator(repo, max_depth=0)
+        # a loader that only delegates to the one it extends (`return super().load(f, path=path)`) is folded through that call
+        evh = Evaluator(repo, max_depth=1 if any(isinstance(n_, ast.Call) and isinstance(n_.func, ast.Attribute) and isinstance(n_.func.value, ast.Call)
+                                                  and getattr(n_.func.value.func, "id", None) == "super" for n_ in walk_no_nested(ldc.node)) else 0)
         evh.run(ldc, HC)
         newh = [e for e in evh.events if e.callee == f"new:{HC.ident}"]
         okh, whyh = False, f"load does not construct exactly one {HC.name}"
